@@ -112,6 +112,13 @@ def ics_pool(rng, uidheavy=False):
         pool.append(gamma.ics_event(variant=2, **base))
         # the same UID carried by a component that is not an event
         pool.append(gamma.ics_event(u, "Task " + tag, comp="VTODO", dtend=None))
+    # the calendar wrapper carries a UID of its own (RFC 7986) - it is not the object's UID:
+    # two objects with one wrapper UID and different event UIDs, and two with different wrapper
+    # UIDs around the same event UID
+    pool.append(gamma.ics_event(uids[0], "Wrapped one", calprops=("UID:wrapper-uid-1", "NAME:Exported")))
+    pool.append(gamma.ics_event(uids[1], "Wrapped two", calprops=("UID:wrapper-uid-1",)))
+    pool.append(gamma.ics_event(uids[0], "Wrapped three", calprops=("UID:wrapper-uid-2",),
+                                dtstart="20200110T100000Z", dtend="20200110T110000Z"))
     pool.append(gamma.ics_event(None, "no uid at all"))
     # a property that may occur only once occurs twice (servers may refuse these - but then
     # without leaving anything behind)
